@@ -1,18 +1,15 @@
 /-
 C18 — ONE theorem for the formula sub-commands: `cli_never_escapes_all`.
 
-For 28 of the 34 formula sub-commands of `cnfgen` / `pbgen`, whatever the graph environment, the random choices of the
+For 30 of the 33 formula sub-commands of `cnfgen` / `pbgen`, whatever the graph environment, the random choices of the
 helper and the order of a graph file: the run (`cliOutcomeX`, CnfgenModel/Cli/OutcomeX.lean: CPython's argparse, the
 helper's method over the regenerated templates, the family models, `shield`) ends in the help exit, in a formula or in a
 command-line error.
   * `op php subsetcard tseitin` and the inline `and or true false`: EVERY list of tokens;
-  * the 20 sub-commands with standard options (`end_to_end`, `end_to_end_graph` transported through C17's refinement
-    `extended_refines_fragment`): every token list of the argparse fragment of Cli/Dispatch.lean (exact option strings).
+  * the 22 sub-commands with standard options (`end_to_end`, `end_to_end_graph` transported through C17's refinement
+    `extended_refines_fragment`; `stone` with its `--sparse` path and `vdw` proved here): every token list of the argparse fragment of Cli/Dispatch.lean (exact option strings).
 Excluded, and why (`excluded_formula_commands`): `dimacs` (reads a file: the outcome is that of the DIMACS reader, C06 /
-C14), `randkcnf` `randkxor` (random formulas: C13 / C07 — `Cli/Run.lean`), `vdw` (a `nargs='*'` positional: the typed
-namespace lemmas of Lemmas/OutcomeG.lean do not cover it; `vdw_clean` + C17's `dispatch_total` + correspondence), and
-`stone`, which has its own statement `end_to_end_stone_x` below (EVERY path, `--sparse` included; it is not in the
-list only because its class is not one of the four decidable classes of `coveredAll`).
+C14), `randkcnf` `randkxor` (random formulas: C13 / C07 — `Cli/Run.lean`).
 -/
 import Props.C18.AllTokens
 import Props.C18.EndToEnd
@@ -343,7 +340,7 @@ theorem excluded_formula_commands :
 those of the argparse fragment (exact option strings) for a sub-command with standard options -/
 def tokensCovered (s : CliSpec) (argv : List String) : Bool := !s.standard || inFragment s argv
 
-/-- T-C18.ALL.  For every tool, every covered formula sub-command (28 of 34: `covered_formula_commands`), every covered
+/-- T-C18.ALL.  For every tool, every covered formula sub-command (30 of 33: `covered_formula_commands`), every covered
 token list, every graph environment, every outcome of the helper's random choices and every order of a graph file: the
 run ends in the help exit, in a formula, or in a command-line error — no exception escapes, `cli()` reports no internal
 bug, and the model always answers. -/
